@@ -146,6 +146,39 @@ func c09(c *core.Ctx) {
 		}
 	}
 
+	// C09.blocks: CBC works on whole blocks only; crypto/cipher panics otherwise
+	{
+		c.Rule("C09.blocks", "every (cipher.BlockMode).CryptBlocks(dst, src) in package uapolicy is dominated by `len(src) % blockSize == 0`: a chunk truncated to a length that is not a multiple of the block size yields a security error, not the `input not full blocks` panic of crypto/cipher in the receive goroutine", 2)
+		for _, f := range libFns(c, "uapolicy") {
+			for _, call := range ssax.Calls(f) {
+				cc := call.Common()
+				if !cc.IsInvoke() || cc.Method.Name() != "CryptBlocks" || len(cc.Args) != 2 {
+					continue
+				}
+				src := ssax.Path(cc.Args[1])
+				ok := false
+				for _, fact := range ssax.FactsAt(call) {
+					x, y, op := fact.X, fact.Y, fact.Op
+					if _, isK := ssax.ConstInt(x); isK {
+						x, y, op = y, x, ssax.SwapOp(op)
+					}
+					k, isK := ssax.ConstInt(y)
+					bo, isRem := ssax.Strip(x).(*ssa.BinOp)
+					if !isK || !isRem || bo.Op != token.REM {
+						continue
+					}
+					if ssax.Path(bo.X) != "len("+src+")" {
+						continue
+					}
+					if (op == token.EQL && k == 0) || (op == token.LEQ && k == 0) || (op == token.LSS && k == 1) {
+						ok = true
+					}
+				}
+				c.Ob("C09.blocks", fname(f)+"·CryptBlocks("+src+")", pos(c, call), ok, "len("+src+") is a multiple of the block size on every path to the call: "+boolStr(ok))
+			}
+		}
+	}
+
 	// C09.select
 	{
 		ivadObj := ivad.Object().(*types.Func)
